@@ -145,24 +145,24 @@ Lemma utf8_ok_4 b0 b1 b2 b3 r : (b0 <? 128) = false -> u8len (b0 :: b1 :: b2 :: 
 Proof. intros H H0. cbn [utf8_ok]. rewrite H, H0. reflexivity. Qed.
 
 (** ** The scanner reads back what appendString wrote *)
-Definition run (s : bytes) (st : sst) : sst := fold_left sstep s st.
+Definition srun (s : bytes) (st : sst) : sst := fold_left sstep s st.
 
-Lemma run_app a b st : run (a ++ b) st = run b (run a st).
+Lemma run_app a b st : srun (a ++ b) st = srun b (srun a st).
 Proof. apply fold_left_app. Qed.
 
 Definition in_str (ts : list token) (acc : bytes) : sst := {| toks := ts; md := MStr acc |}.
 
 Lemma run_u00 ts acc h l dh dl : unhex h = Some dh -> unhex l = Some dl ->
-  run [92; 117; 48; 48; h; l] (in_str ts acc) = in_str ts (rev (rune_utf8 (dh * 16 + dl)) ++ acc).
+  srun [92; 117; 48; 48; h; l] (in_str ts acc) = in_str ts (rev (rune_utf8 (dh * 16 + dl)) ++ acc).
 Proof.
-  intros Hh Hl. unfold run, in_str. cbn [fold_left].
+  intros Hh Hl. unfold srun, in_str. cbn [fold_left].
   change (sstep (sstep (sstep (sstep {| toks := ts; md := MStr acc |} 92) 117) 48) 48)
     with {| toks := ts; md := MHex acc 2 0 |}.
   unfold sstep at 2. cbn [md toks]. rewrite Hh. unfold sstep. cbn [md toks]. rewrite Hl.
   change (0 * 16 + dh) with dh. reflexivity.
 Qed.
 
-Lemma run_esc_byte ts acc b : b < 128 -> run (esc_byte b) (in_str ts acc) = in_str ts (b :: acc).
+Lemma run_esc_byte ts acc b : b < 128 -> srun (esc_byte b) (in_str ts acc) = in_str ts (b :: acc).
 Proof.
   intro Hb. unfold esc_byte.
   destruct ((b =? 34) || (b =? 92)) eqn:E1.
@@ -180,7 +180,7 @@ Proof.
     replace (b / 16 * 16 + b mod 16) with b by (pose proof (N.div_mod b 16); lia).
     unfold rune_utf8. replace (b <? 128) with true by (symmetry; apply N.ltb_lt; auto). reflexivity.
   - (* literal *)
-    bool_hyps. unfold run, in_str. cbn [fold_left sstep md toks]. unfold step_str.
+    bool_hyps. unfold srun, in_str. cbn [fold_left sstep md toks]. unfold step_str.
     replace (b =? 34) with false by (symmetry; apply N.eqb_neq; auto).
     replace (b =? 92) with false by (symmetry; apply N.eqb_neq; auto).
     replace (b <? 32) with false by (symmetry; apply N.ltb_ge; auto).
@@ -203,11 +203,11 @@ Proof.
 Qed.
 
 Lemma run_u2028 ts acc b2 : b2 = 168 \/ b2 = 169 ->
-  run [92; 117; 50; 48; 50; if b2 =? 168 then 56 else 57] (in_str ts acc) = in_str ts (b2 :: 128 :: 226 :: acc).
+  srun [92; 117; 50; 48; 50; if b2 =? 168 then 56 else 57] (in_str ts acc) = in_str ts (b2 :: 128 :: 226 :: acc).
 Proof. intros [-> | ->]; reflexivity. Qed.
 
 Theorem run_enc_str : forall s ts acc, utf8_ok s = true ->
-  run (enc_str s) (in_str ts acc) = in_str ts (rev s ++ acc).
+  srun (enc_str s) (in_str ts acc) = in_str ts (rev s ++ acc).
 Proof.
   intro s. induction s as [|b r H IHs|b0 b1 r H H0 IHs|b0 b1 b2 r H H0 IHs|b0 b1 b2 b3 r H H0 IHs|b0 r H H0 H1 IHs] using enc_ind;
     intros ts acc Hok.
@@ -217,25 +217,25 @@ Proof.
     rewrite IHs by auto. cbn [rev]. rewrite <- app_assoc. reflexivity.
   - rewrite enc_str_2 by auto. rewrite utf8_ok_2 in Hok by auto.
     destruct (u8len_2 _ _ _ H0) as [Ha Hb]. rewrite run_app.
-    assert (E : run [b0; b1] (in_str ts acc) = in_str ts (b1 :: b0 :: acc)).
-    { unfold run, in_str. cbn [fold_left]. unfold sstep at 2. cbn [md toks].
+    assert (E : srun [b0; b1] (in_str ts acc) = in_str ts (b1 :: b0 :: acc)).
+    { unfold srun, in_str. cbn [fold_left]. unfold sstep at 2. cbn [md toks].
       rewrite step_str_hi, Ha by auto. unfold sstep. cbn [md toks]. fold (cont b1). rewrite Hb. reflexivity. }
     rewrite E, IHs by auto. cbn [rev]. rewrite <- !app_assoc. reflexivity.
   - rewrite enc_str_3 by auto. rewrite utf8_ok_3 in Hok by auto.
     destruct (u8len_3 _ _ _ _ H0) as (Ha & Hb & Hc & Hd). rewrite run_app.
-    assert (E : run (esc3 b0 b1 b2) (in_str ts acc) = in_str ts (b2 :: b1 :: b0 :: acc)).
+    assert (E : srun (esc3 b0 b1 b2) (in_str ts acc) = in_str ts (b2 :: b1 :: b0 :: acc)).
     { unfold esc3. destruct ((b0 =? 226) && (b1 =? 128) && ((b2 =? 168) || (b2 =? 169))) eqn:Es.
       - apply andb_true_iff in Es as [Es E3]. apply andb_true_iff in Es as [E1 E2].
         apply N.eqb_eq in E1, E2. subst b0 b1. apply run_u2028.
         apply orb_true_iff in E3 as [E3|E3]; apply N.eqb_eq in E3; auto.
-      - unfold run, in_str. cbn [fold_left]. unfold sstep at 3. cbn [md toks].
+      - unfold srun, in_str. cbn [fold_left]. unfold sstep at 3. cbn [md toks].
         rewrite step_str_hi, Ha, Hb by auto. unfold sstep at 2. cbn [md toks]. rewrite Hc.
         unfold sstep. cbn [md toks]. fold (cont b2). rewrite Hd. reflexivity. }
     rewrite E, IHs by auto. cbn [rev]. rewrite <- !app_assoc. reflexivity.
   - rewrite enc_str_4 by auto. rewrite utf8_ok_4 in Hok by auto.
     destruct (u8len_4 _ _ _ _ _ H0) as (Ha & Hb & Hc & Hd & He & Hf). rewrite run_app.
-    assert (E : run [b0; b1; b2; b3] (in_str ts acc) = in_str ts (b3 :: b2 :: b1 :: b0 :: acc)).
-    { unfold run, in_str. cbn [fold_left]. unfold sstep at 4. cbn [md toks].
+    assert (E : srun [b0; b1; b2; b3] (in_str ts acc) = in_str ts (b3 :: b2 :: b1 :: b0 :: acc)).
+    { unfold srun, in_str. cbn [fold_left]. unfold sstep at 4. cbn [md toks].
       rewrite step_str_hi, Ha, Hb, Hc by auto. unfold sstep at 3. cbn [md toks]. rewrite Hd.
       unfold sstep at 2. cbn [md toks]. fold (cont b2). rewrite He.
       unfold sstep. cbn [md toks]. fold (cont b3). rewrite Hf. reflexivity. }
@@ -245,17 +245,17 @@ Qed.
 
 (** *** C07_string_roundtrip: a quoted string is scanned back as the string. *)
 Theorem scan_quote s ts : utf8_ok s = true ->
-  run (quote s) {| toks := ts; md := MBetween |} = {| toks := TStr s :: ts; md := MBetween |}.
+  srun (quote s) {| toks := ts; md := MBetween |} = {| toks := TStr s :: ts; md := MBetween |}.
 Proof.
   intro Hok. unfold quote. change (34 :: enc_str s ++ [34]) with ([34] ++ enc_str s ++ [34]).
-  rewrite !run_app. change (run [34] {| toks := ts; md := MBetween |}) with (in_str ts []).
+  rewrite !run_app. change (srun [34] {| toks := ts; md := MBetween |}) with (in_str ts []).
   rewrite run_enc_str by auto. rewrite app_nil_r.
-  unfold run, in_str. cbn [fold_left sstep md toks]. unfold step_str. cbn [N.eqb Pos.eqb].
+  unfold srun, in_str. cbn [fold_left sstep md toks]. unfold step_str. cbn [N.eqb Pos.eqb].
   unfold tpush. rewrite rev_involutive. reflexivity.
 Qed.
 
 Corollary scan_string_alone s : utf8_ok s = true -> scan (quote s) = [TStr s].
-Proof. intro H. unfold scan. fold (run (quote s) sst0). unfold sst0. rewrite scan_quote by auto. reflexivity. Qed.
+Proof. intro H. unfold scan. fold (srun (quote s) sst0). unfold sst0. rewrite scan_quote by auto. reflexivity. Qed.
 
 (** Premises satisfiable, with everything encoding/json escapes. *)
 Example string_roundtrip_example :
@@ -346,3 +346,128 @@ Proof.
     exists (fffd_esc ++ r'). unfold fffd_esc. cbn [app until_quote N.eqb Pos.eqb]. rewrite Hr.
     split; [reflexivity|discriminate].
 Qed.
+
+(** ** quickMatch on real lines *)
+
+(** The value [read_json_value] finds for key [p] is the escaped text of [s]
+    up to its closing quote. *)
+Definition located (line p s : bytes) : Prop :=
+  exists rest, until_quote (enc_str s ++ 34 :: rest) = Some (read_json_value line p).
+
+Lemma located_value line p s : located line p s -> has_bs (read_json_value line p) = false ->
+  read_json_value line p = s.
+Proof.
+  intros [rest H] Hb. destruct (until_quote_enc s rest) as (r & Hr & Hs).
+  rewrite H in Hr. injection Hr as <-. auto.
+Qed.
+
+(** RFC3339 texts: digits and "-:.+TZ". *)
+Definition time_char (b : N) : bool :=
+  in_r 48 57 b || (b =? 45) || (b =? 58) || (b =? 46) || (b =? 43) || (b =? 84) || (b =? 90).
+Definition time_text (t : bytes) : bool := forallb time_char t.
+
+Lemma time_char_facts b : time_char b = true ->
+  (b <? 128) = true /\ esc_byte b = [b] /\ b <> 34 /\ b <> 81.
+Proof.
+  unfold time_char, in_r. intro H.
+  assert (Hc : (48 <= b <= 57) \/ b = 45 \/ b = 58 \/ b = 46 \/ b = 43 \/ b = 84 \/ b = 90).
+  { repeat (apply orb_true_iff in H as [H|H]); try (apply N.eqb_eq in H; auto 8).
+    apply andb_true_iff in H as [H1 H2]. apply N.leb_le in H1, H2. auto. }
+  assert (Hd : b = 48 \/ b = 49 \/ b = 50 \/ b = 51 \/ b = 52 \/ b = 53 \/ b = 54 \/ b = 55 \/ b = 56 \/ b = 57 \/
+               b = 45 \/ b = 58 \/ b = 46 \/ b = 43 \/ b = 84 \/ b = 90) by lia.
+  clear H Hc. repeat (destruct Hd as [->|Hd]; [repeat split; (reflexivity || discriminate)|]).
+  subst. repeat split; (reflexivity || discriminate).
+Qed.
+
+Lemma enc_str_time t : time_text t = true -> enc_str t = t.
+Proof.
+  induction t as [|b t IH]; intro H; [reflexivity|]. cbn [time_text forallb] in H.
+  apply andb_true_iff in H as [Hb Ht]. destruct (time_char_facts _ Hb) as (H1 & H2 & _).
+  rewrite enc_str_1, H2 by auto. cbn [app]. f_equal. auto.
+Qed.
+
+Lemma after_first_skip p0 p a r : (forall b, In b a -> b <> p0) ->
+  after_first (p0 :: p) (a ++ r) = after_first (p0 :: p) r.
+Proof.
+  induction a as [|b a IH]; intro H; [reflexivity|].
+  cbn [app after_first is_prefix]. replace (p0 =? b) with false
+    by (symmetry; apply N.eqb_neq; intro; subst; eapply H; [left|]; reflexivity).
+  cbn [andb]. apply IH. intros; apply H; right; auto.
+Qed.
+
+Lemma after_first_step p x r : is_prefix p (x :: r) = false -> after_first p (x :: r) = after_first p r.
+Proof. intro H. cbn [after_first]. rewrite H. reflexivity. Qed.
+
+(** json.Marshal writes T first and QH second. *)
+Lemma join_cons f R : is_nil f = false ->
+  join_fields (f :: R) = f ++ match join_fields R with [] => [] | rest => 44 :: rest end.
+Proof. intro H. cbn [join_fields]. rewrite H. destruct (join_fields R); [rewrite app_nil_r|]; reflexivity. Qed.
+
+Lemma encode_head e : exists rest,
+  encode e = [123; 34; 84; 34; 58; 34] ++ enc_str (slot e sT) ++ [34; 44] ++ pQH ++
+             enc_str (slot e sQH) ++ 34 :: rest.
+Proof.
+  unfold encode, obj. rewrite join_cons by reflexivity. rewrite join_cons by reflexivity.
+  set (sep2 := match join_fields _ with [] => [] | rest => 44 :: rest end).
+  exists (sep2 ++ [125]).
+  unfold fld, quote. change (B "T") with [84]. change (B "QH") with [81; 72].
+  change pQH with [34; 81; 72; 34; 58; 34]. cbn [app].
+  repeat (rewrite <- app_assoc; cbn [app]). reflexivity.
+Qed.
+
+Lemma located_qh e : time_text (slot e sT) = true -> located (encode e) pQH (slot e sQH).
+Proof.
+  intro Ht. destruct (encode_head e) as [rest E]. exists rest.
+  unfold read_json_value. rewrite E, (enc_str_time _ Ht).
+  assert (Hall : forall b, In b (slot e sT) -> b <> 34 /\ b <> 81).
+  { intros b Hb. unfold time_text in Ht. rewrite forallb_forall in Ht.
+    destruct (time_char_facts _ (Ht _ Hb)) as (_ & _ & ? & ?). auto. }
+  change pQH with [34; 81; 72; 34; 58; 34].
+  (* the six leading bytes *)
+  assert (E1 : after_first [34; 81; 72; 34; 58; 34]
+                 ([123; 34; 84; 34; 58; 34] ++ slot e sT ++ [34; 44] ++ [34; 81; 72; 34; 58; 34] ++
+                  enc_str (slot e sQH) ++ 34 :: rest) =
+               after_first [34; 81; 72; 34; 58; 34]
+                 (slot e sT ++ [34; 44] ++ [34; 81; 72; 34; 58; 34] ++ enc_str (slot e sQH) ++ 34 :: rest)).
+  { cbn [app].
+    do 5 (rewrite after_first_step by reflexivity).
+    apply after_first_step.
+    destruct (slot e sT) as [|b t] eqn:Et; [reflexivity|].
+    cbn [app is_prefix]. replace (81 =? b) with false; [reflexivity|].
+    symmetry. apply N.eqb_neq. intro; subst b. destruct (Hall 81 (or_introl eq_refl)) as [_ ?]. congruence. }
+  rewrite E1. rewrite after_first_skip by (intros b Hb; apply Hall; auto).
+  cbn [app after_first is_prefix N.eqb Pos.eqb andb length skipn].
+  destruct (until_quote_enc (slot e sQH) rest) as (r & Hr & _). rewrite Hr. reflexivity.
+Qed.
+
+(** The pre-match on the raw line accepts every line whose decoded entry
+    satisfies the term, once the three raw values are the ones of the
+    entry's keys. *)
+Theorem quick_line_over_approx c e v a strict :
+  located (encode e) pQH (slot e sQH) -> located (encode e) pIP (slot e sIP) ->
+  located (encode e) pCID (slot e sCID) ->
+  term_match c (raw_entry (slot e sQH) (slot e sIP) (slot e sCID)) v a strict = true ->
+  quick_line c (encode e) (CTerm v a strict) = true.
+Proof.
+  intros Hh Hi Hc Hm. unfold quick_line.
+  destruct (has_bs (read_json_value (encode e) pQH)) eqn:B1; [reflexivity|].
+  destruct (has_bs (read_json_value (encode e) pIP)) eqn:B2; [reflexivity|].
+  destruct (has_bs (read_json_value (encode e) pCID)) eqn:B3; [reflexivity|].
+  cbn [orb]. rewrite (located_value _ _ _ Hh B1), (located_value _ _ _ Hi B2), (located_value _ _ _ Hc B3).
+  exact Hm.
+Qed.
+
+(** Without the repair the claim is false on real lines: host a&b.example.org. *)
+Definition amp_entry : centry :=
+  set_slot (set_slot (set_slot blank sT (B "2026-10-01T17:09:47Z")) sQH (B "a&b.example.org")) sIP (B "1.2.3.4").
+Definition no_clients : config :=
+  {| enabled := true; file_enabled := true; mem_size := 1%Z; ignored := []; clients := [] |}.
+
+Example quick_unfixed_refuted :
+  let k := CTerm (B "a&b") [] false in
+  term_match no_clients (raw_entry (slot amp_entry sQH) (slot amp_entry sIP) (slot amp_entry sCID)) (B "a&b") [] false = true /\
+  quick_line_unfixed no_clients (encode amp_entry) k = false /\
+  quick_line no_clients (encode amp_entry) k = true /\
+  snd (decode {| o_time := fun _ => true; o_ip := fun _ => true; o_addr := fun _ => true; o_b64 := fun _ => true |}
+              (encode amp_entry)) = amp_entry.
+Proof. vm_compute. auto. Qed.
